@@ -100,7 +100,7 @@ func (f *Formatter) formatImportStatement(stmt *ast.ImportStatement) string {
 
 	buf.Reset()
 	buf.WriteString("import ")
-	buf.WriteString(stmt.Name.String())
+	buf.WriteString(nodeString(stmt.Name))
 	buf.WriteString(";")
 
 	return buf.String()
@@ -166,8 +166,8 @@ func (f *Formatter) formatDeclareStatement(stmt *ast.DeclareStatement) string {
 	if v := f.formatComment(stmt.Infix, " ", 0); v != "" {
 		buf.WriteString(v)
 	}
-	buf.WriteString("local " + stmt.Name.String())
-	buf.WriteString(" " + stmt.ValueType.String())
+	buf.WriteString("local " + nodeString(stmt.Name))
+	buf.WriteString(" " + nodeString(stmt.ValueType))
 	if stmt.Value != nil {
 		buf.WriteString(" = ")
 		buf.WriteString(f.formatExpression(stmt.Value).ChunkedString(stmt.Nest, buf.Len()))
@@ -183,7 +183,7 @@ func (f *Formatter) formatSetStatement(stmt *ast.SetStatement) string {
 	defer bufferPool.Put(buf)
 
 	buf.Reset()
-	buf.WriteString("set " + stmt.Ident.String())
+	buf.WriteString("set " + nodeString(stmt.Ident))
 	buf.WriteString(" " + stmt.Operator.Operator + " ")
 	buf.WriteString(f.formatExpression(stmt.Value).ChunkedString(stmt.Nest, buf.Len()))
 	buf.WriteString(";")
@@ -197,7 +197,7 @@ func (f *Formatter) formatUnsetStatement(stmt *ast.UnsetStatement) string {
 	defer bufferPool.Put(buf)
 
 	buf.Reset()
-	buf.WriteString("unset " + stmt.Ident.String())
+	buf.WriteString("unset " + nodeString(stmt.Ident))
 	buf.WriteString(";")
 
 	return buf.String()
@@ -213,9 +213,9 @@ func (f *Formatter) formatRemoveStatement(stmt *ast.RemoveStatement) string {
 	// The "remove" statement is alias of "unset" statement,
 	// so it could replaced to unset by configuration
 	if f.conf.ShouldUseUnset {
-		buf.WriteString("unset " + stmt.Ident.String())
+		buf.WriteString("unset " + nodeString(stmt.Ident))
 	} else {
-		buf.WriteString("remove " + stmt.Ident.String())
+		buf.WriteString("remove " + nodeString(stmt.Ident))
 	}
 	buf.WriteString(";")
 
@@ -499,7 +499,7 @@ func (f *Formatter) formatAddStatement(stmt *ast.AddStatement) string {
 	defer bufferPool.Put(buf)
 
 	buf.Reset()
-	buf.WriteString("add " + stmt.Ident.String())
+	buf.WriteString("add " + nodeString(stmt.Ident))
 	buf.WriteString(" " + stmt.Operator.Operator + " ")
 	buf.WriteString(f.formatExpression(stmt.Value).ChunkedString(stmt.Nest, buf.Len()))
 	buf.WriteString(";")
@@ -513,7 +513,7 @@ func (f *Formatter) formatCallStatement(stmt *ast.CallStatement) string {
 	defer bufferPool.Put(buf)
 
 	buf.Reset()
-	buf.WriteString("call " + stmt.Subroutine.String())
+	buf.WriteString("call " + nodeString(stmt.Subroutine))
 
 	// Add function arguments if specified
 	if len(stmt.Arguments) > 0 {
@@ -655,7 +655,7 @@ func (f *Formatter) formatGotoStatement(stmt *ast.GotoStatement) string {
 	defer bufferPool.Put(buf)
 
 	buf.Reset()
-	buf.WriteString("goto " + stmt.Destination.String())
+	buf.WriteString("goto " + nodeString(stmt.Destination))
 	buf.WriteString(";")
 
 	return buf.String()
